@@ -67,7 +67,7 @@ Qed.
 Lemma compile_expr_ok : forall e L ce t pool, Inv L ce -> ty_expr F G L e = Some t ->
   compile_expr Gc ce e pool <> None.
 Proof.
-  induction e as [z|b0|s0|x|o a IHa|o a b IHa IHb|f args IHargs|c a b IHc IHa IHb] using MutateProofs.expr_ind2;
+  induction e as [z|b0|s0|x|o a IHa|o a b IHa IHb|f args IHargs|c a b IHc IHa IHb|es IHes|a i IHa IHi|a IHa] using MutateProofs.expr_ind2;
     intros L ce t pool HI Ht; simpl.
   - discriminate.
   - discriminate.
@@ -103,6 +103,23 @@ Proof.
     pose proof (IHa L ce _ p1 HI Ea). destruct (compile_expr Gc ce a p1) as [[ca p2]|]; [|contradiction].
     pose proof (IHb L ce _ p2 HI Eb). destruct (compile_expr Gc ce b p2) as [[cb p3]|]; [|contradiction].
     discriminate.
+  - (* array literal *)
+    rewrite ty_expr_arr in Ht. destruct (elems_ok F G L es) eqn:Ea; [|discriminate]. apply elems_ok_spec in Ea.
+    match goal with |- match ?g with _ => _ end <> None => assert (HA : g <> None) end.
+    { clear Ht. generalize pool. induction Ea as [|a0 l Hap Hrest IH]; intros pool0; [discriminate|].
+      inversion IHes as [|a1 l1 Ha1 Hl1]; subst.
+      pose proof (Ha1 L ce TInt pool0 HI Hap). destruct (compile_expr Gc ce a0 pool0) as [[ca p1]|]; [|contradiction].
+      pose proof (IH Hl1 p1) as Hr.
+      match goal with |- match ?g with _ => _ end <> None => destruct g as [[cr p2]|]; [discriminate|contradiction] end. }
+    match goal with |- match ?g with _ => _ end <> None => destruct g as [[cel p1]|]; [discriminate|contradiction] end.
+  - (* at *)
+    simpl in Ht. destruct (ty_expr F G L a) as [ta|] eqn:Ea; [|discriminate].
+    destruct (ty_expr F G L i) as [ti|] eqn:Ei; [|destruct ta; discriminate].
+    pose proof (IHa L ce ta pool HI Ea). destruct (compile_expr Gc ce a pool) as [[ca p1]|]; [|contradiction].
+    pose proof (IHi L ce ti p1 HI Ei). destruct (compile_expr Gc ce i p1) as [[ci p2]|]; [discriminate|contradiction].
+  - (* array_length *)
+    simpl in Ht. destruct (ty_expr F G L a) as [ta|] eqn:Ea; [|discriminate].
+    pose proof (IHa L ce ta pool HI Ea). destruct (compile_expr Gc ce a pool) as [[ca p1]|]; [discriminate|contradiction].
 Qed.
 
 Lemma expr_has_ok L ce e t pool : Inv L ce -> expr_has F G L e t = true -> exists c p1, compile_expr Gc ce e pool = Some (c, p1).
